@@ -323,8 +323,22 @@ template <class G> class Obj : public IObj {
                     throw std::logic_error("no getInDegree");
             } else if (op == "getDegree") {
                 if constexpr (!I::directed) {
-                    (void)g.getDegree(V_());
-                    (void)g.getDegree(V_(), false);
+                    // both forms must accept or reject the vertex (the first rejection is reported)
+                    std::exception_ptr e1, e2;
+                    try {
+                        (void)g.getDegree(V_(), false);
+                    } catch (...) {
+                        e1 = std::current_exception();
+                    }
+                    try {
+                        (void)g.getDegree(V_());
+                    } catch (...) {
+                        e2 = std::current_exception();
+                    }
+                    if (e1 && e2)
+                        std::rethrow_exception(e1);
+                    if (e1 || e2)
+                        throw std::logic_error("getDegree(v, false) and getDegree(v, true) disagree on rejecting the vertex");
                 } else
                     throw std::logic_error("no getDegree");
             } else if constexpr (I::kind == KindTag::Labeled) {
